@@ -2,11 +2,15 @@ package rules
 
 import (
 	"fmt"
+	"go/constant"
+	"go/types"
+	"regexp"
 	"sort"
 	"strings"
 
 	"golang.org/x/tools/go/ssa"
 
+	"annverif/cfgx"
 	"annverif/core"
 	"annverif/taint"
 )
@@ -15,12 +19,55 @@ func init() {
 	Registry["C08"] = c08
 	Metas["C08"] = Meta{Level: "other", NeedCG: true,
 		Technique: "static analysis: goroutine-context classification (recover boundary) over the call graph, type-driven taint of peer-decoded integers to index/slice/allocation sinks with interprocedural parameter propagation and bound-guard recognition, decode-limit table, nil-ness and representation-invariant obligations at the queue boundary",
-		Explain: "placeholder",
+		Explain:   "placeholder",
 	}
 }
 
 func c08(c *Ctx) {
+	c08R1(c)
+	c08R2(c)
 	c08R3(c)
+	c08R4(c)
+	c08R5(c)
+	c08R6(c)
+	c08R7(c)
+	c08R8(c)
+}
+
+func c08R4(c *Ctx) {
+	rule := c.R.Rule("R4", "no explicit panic on peer data: on goroutines without a recover no panic() / no-return helper is edge-dominated by a condition over peer-decoded integers or lengths (sanity panics on internal invariants are listed in the reviewed table)", 1)
+	scope, _ := c.unrecoveredScope()
+	peer := taint.PeerTypes(c.P, c08RegPkgs, c08ExtraPeer)
+	eng := taint.New(c.P, peer, c.Fn, scope)
+	eng.Trusted = []string{").TwoThirdsMajority(", "gemmill/blockchain.(*BlockStore).Load", "gemmill/blockchain.(*BlockStore).GetReader("}
+	fs, n := eng.CheckPanics(c.NR)
+	c.R.Ob(rule, "panics-examined", n > 20, "-", "", fmt.Sprintf("%d explicit panic sites examined in scope", n))
+	perFn := map[string]int{}
+	for _, f := range fs {
+		perFn[core.Short(fname(f.Fn))]++
+	}
+	for _, f := range fs {
+		fnm := core.Short(fname(f.Fn))
+		key := "panic:" + fnm + ":" + shorten(f.Guard)
+		rv, ok := c08PanicReviewed[fnm]
+		// the review covers the listed number of sites in that function; one more is a new panic
+		ok = ok && perFn[fnm] <= rv.n
+		c.R.Ob(rule, key, ok, c.Pos(f.Ins), fname(f.Fn), fmt.Sprintf("explicit panic guarded by peer-controlled %v (%s); reviewed(%d site(s)): %s", f.Taint, f.Guard, rv.n, rv.why))
+	}
+}
+
+type panicReview struct {
+	n   int
+	why string
+}
+
+// Reviewed sanity panics (function -> number of reviewed sites, reason).
+var c08PanicReviewed = map[string]panicReview{
+	"gemmill/blockchain.(*BlockStore).SaveBlock":                     {2, "contiguity / completeness sanity checks: fast-sync blocks are filed under requesters[block.Height] and peeked at pool.height = store height+1, consensus blocks passed ValidateBlock (Height == last+1) and their part set is complete before finalizeCommit; not selectable by a peer"},
+	"gemmill/consensus/pbft.(*ConsensusState).enterPrecommit":        {1, "`+2/3 prevoted for an invalid block`: reached only when a +2/3 prevote majority names a block that fails ValidateBlock, i.e. more than 2/3 Byzantine voting power, outside the fault model"},
+	"gemmill/consensus/pbft.(*ConsensusState).reconstructLastCommit": {1, "iterates the node's own stored seen-commit (LoadSeenCommit), written by this node after +2/3 verification"},
+	"gemmill/types.voteToStep":                                       {1, "called only from PrivValidator.SignVote on votes this node built itself (the type is a constant at every signVote call site)"},
+	"gemmill/consensus/pbft.(*ConsensusState).addVote":               {1, "`Unexpected vote type`: HeightVoteSet.AddVote returns added=false for an invalid type (VoteSet lookup is nil), and the switch is under `if added`"},
 }
 
 // goroutine roots and whether they recover
@@ -124,6 +171,8 @@ func c08R3(c *Ctx) {
 		// a +2/3 majority block id: more than one third of the voting power is honest and prevotes/precommits
 		// only part-set headers it accepted through defaultSetProposal's bound (C17-R3)
 		").TwoThirdsMajority(",
+		// records read back from the node's own block store / state database
+		"gemmill/blockchain.(*BlockStore).Load", "gemmill/blockchain.(*BlockStore).GetReader(",
 		// cs.Proposal / rs.Proposal is stored only by defaultSetProposal, after the part count was bounded (C17-R3)
 	}
 	// cs.Proposal (RoundState.Proposal) is stored only by defaultSetProposal, after the part count was
@@ -141,7 +190,7 @@ func c08R3(c *Ctx) {
 	c.R.Extra["C08_tainted_sinks"] = tsinks
 	c.R.Ob(rule, "scope-non-empty", len(scope) > 100 && len(peer) > 10 && sinks > 100, "-", "", fmt.Sprintf("%d unrecovered roots, %d functions in scope, %d peer types, %d sinks examined", len(roots), len(scope), len(peer), sinks))
 	for _, f := range fs {
-		c.R.Ob(rule, "bounds:"+core.Short(fname(f.Fn))+":"+f.Kind+":"+shorten(f.Operand), false, c.Pos(f.Ins), fname(f.Fn),
+		c.R.Ob(rule, "bounds:"+core.Short(fname(f.Fn))+":"+reAtPos.ReplaceAllString(f.Kind, "")+":"+shorten(f.Operand), false, c.Pos(f.Ins), fname(f.Fn),
 			fmt.Sprintf("peer-controlled %v reaches %s without a %s bound; %s %v", f.Taint, f.Kind, f.Missing, guardsText(f.Fn, f.Ins), f.Via))
 	}
 }
@@ -201,4 +250,690 @@ func (c *Ctx) DebugRoots(args []string) string {
 		}
 	}
 	return b.String()
+}
+
+// ---- R8: panic-safe critical sections in recovered contexts ----
+
+func isLockCall(ci ssa.CallInstruction) (string, bool, bool) {
+	n := cfgxCallee(ci)
+	switch n {
+	case "sync.(*Mutex).Lock", "sync.(*RWMutex).Lock", "sync.(*RWMutex).RLock":
+		if len(ci.Common().Args) > 0 {
+			return exprOf(ci.Common().Args[0]), true, true
+		}
+	case "sync.(*Mutex).Unlock", "sync.(*RWMutex).Unlock", "sync.(*RWMutex).RUnlock":
+		if len(ci.Common().Args) > 0 {
+			return exprOf(ci.Common().Args[0]), false, true
+		}
+	}
+	return "", false, false
+}
+
+// recoveredScope: functions reachable (not through `go`) from the goroutine roots that defer a recover
+// in the p2p package (recvRoutine / sendRoutine), within gemmill/.
+func (c *Ctx) recoveredScope() map[*ssa.Function]bool {
+	var roots []*ssa.Function
+	for _, r := range c.goRoots() {
+		if r.recovered && strings.HasPrefix(core.Short(core.FuncName(r.fn)), "gemmill/p2p.") {
+			roots = append(roots, r.fn)
+		}
+	}
+	return c.P.Reachable(roots, true, func(fn *ssa.Function) bool {
+		return !strings.HasPrefix(core.FuncName(fn), core.Mod+"/gemmill/")
+	})
+}
+
+type critSection struct {
+	fn     *ssa.Function
+	lock   ssa.Instruction
+	mutex  string
+	risky  []ssa.Instruction
+	leaked bool // a return is reachable with the lock held
+}
+
+// explicitSections finds Lock calls without a deferred Unlock of the same mutex and collects the
+// instructions executed while the lock is held (until the matching explicit Unlock).
+func explicitSections(fn *ssa.Function) []critSection {
+	deferred := map[string]bool{}
+	for _, b := range fn.Blocks {
+		for _, ins := range b.Instrs {
+			if d, ok := ins.(*ssa.Defer); ok {
+				if m, acq, ok := isLockCall(d); ok && !acq {
+					deferred[m] = true
+				}
+				// defer func() { ...Unlock() }()
+				if mc, ok := d.Call.Value.(*ssa.MakeClosure); ok {
+					if cf, ok := mc.Fn.(*ssa.Function); ok {
+						for _, bb := range cf.Blocks {
+							for _, i2 := range bb.Instrs {
+								if ci, ok := i2.(ssa.CallInstruction); ok {
+									if _, acq, ok := isLockCall(ci); ok && !acq {
+										deferred["*"] = true
+									}
+								}
+							}
+						}
+					}
+				}
+			}
+		}
+	}
+	var out []critSection
+	for _, b := range fn.Blocks {
+		for i, ins := range b.Instrs {
+			ci, ok := ins.(*ssa.Call)
+			if !ok {
+				continue
+			}
+			m, acq, ok := isLockCall(ci)
+			if !ok || !acq || deferred[m] || deferred["*"] {
+				continue
+			}
+			cs := critSection{fn: fn, lock: ins, mutex: m}
+			seen := map[*ssa.BasicBlock]bool{}
+			var walk func(bb *ssa.BasicBlock, from int)
+			walk = func(bb *ssa.BasicBlock, from int) {
+				for j := from; j < len(bb.Instrs); j++ {
+					x := bb.Instrs[j]
+					if c2, ok := x.(ssa.CallInstruction); ok {
+						if m2, acq2, ok := isLockCall(c2); ok && !acq2 && m2 == m {
+							if _, isDefer := x.(*ssa.Defer); !isDefer {
+								return
+							}
+						}
+					}
+					if _, ok := x.(*ssa.Return); ok {
+						cs.leaked = true
+						return
+					}
+					if mayPanic(x) {
+						cs.risky = append(cs.risky, x)
+					}
+				}
+				for _, s := range bb.Succs {
+					if !seen[s] {
+						seen[s] = true
+						walk(s, 0)
+					}
+				}
+			}
+			walk(b, i+1)
+			out = append(out, cs)
+		}
+	}
+	return out
+}
+
+// mayPanic: instructions that can raise a run-time panic on adversarial values.
+func mayPanic(ins ssa.Instruction) bool {
+	switch x := ins.(type) {
+	case *ssa.Call:
+		if _, ok := x.Call.Value.(*ssa.Builtin); ok {
+			return false
+		}
+		n := cfgxCallee(x)
+		for _, safe := range []string{"sync.", "sync/atomic.", "time.", "container/list.", "go.uber.org/zap.", "fmt.Sprintf", "math/rand."} {
+			if strings.HasPrefix(n, safe) {
+				return false
+			}
+		}
+		return true
+	case *ssa.IndexAddr, *ssa.Index, *ssa.Slice:
+		return true
+	case *ssa.TypeAssert:
+		return !x.CommaOk
+	case *ssa.BinOp:
+		return x.Op.String() == "/" || x.Op.String() == "%"
+	case *ssa.Panic:
+		return true
+	}
+	return false
+}
+
+// DebugSections lists explicit critical sections in the recovered scope (diagnostics).
+func (c *Ctx) DebugSections() string {
+	var b strings.Builder
+	scope := c.recoveredScope()
+	var fns []*ssa.Function
+	for fn := range scope {
+		if fn.Blocks != nil {
+			fns = append(fns, fn)
+		}
+	}
+	sort.Slice(fns, func(i, j int) bool { return core.FuncName(fns[i]) < core.FuncName(fns[j]) })
+	fmt.Fprintf(&b, "recovered scope: %d functions\n", len(fns))
+	for _, fn := range fns {
+		for _, cs := range explicitSections(fn) {
+			fmt.Fprintf(&b, "%s lock %s at %s leaked=%v risky=%d\n", core.Short(core.FuncName(fn)), cs.mutex, c.Pos(cs.lock), cs.leaked, len(cs.risky))
+			for _, r := range cs.risky {
+				s := r.String()
+				if v, ok := r.(ssa.Value); ok {
+					s = exprOf(v)
+				}
+				if len(s) > 140 {
+					s = s[:140]
+				}
+				fmt.Fprintf(&b, "      %s  %s\n", c.Pos(r), s)
+			}
+		}
+	}
+	return b.String()
+}
+
+var reAtPos = regexp.MustCompile(` at [^)]*`)
+
+var reParam = regexp.MustCompile(`\ba[0-9]+\b`)
+
+// mentionsCallerData: does the rendered expression mention a parameter other than the receiver?
+func mentionsCallerData(fn *ssa.Function, v ssa.Value) bool {
+	recv := fn.Signature.Recv() != nil
+	for _, m := range reParam.FindAllString(exprOf(v), -1) {
+		if recv && m == "a0" {
+			continue
+		}
+		return true
+	}
+	return false
+}
+
+func nilable(t types.Type) bool {
+	switch t.Underlying().(type) {
+	case *types.Pointer, *types.Slice, *types.Map, *types.Interface, *types.Signature, *types.Chan:
+		return true
+	}
+	return false
+}
+
+func c08R8(c *Ctx) {
+	rule := c.R.Rule("R8", "panic-safe critical sections: in code reachable from the recovered p2p routines (where a panic unwinds into `_recover` and the process lives on) a mutex is released by a deferred Unlock, or the explicitly unlocked section passes no nil-able caller/peer data to a call and indexes nothing with it (otherwise one malformed message leaves the mutex locked for ever: wedge)", 8)
+	scope := c.recoveredScope()
+	var fns []*ssa.Function
+	for fn := range scope {
+		if fn.Blocks != nil {
+			fns = append(fns, fn)
+		}
+	}
+	sort.Slice(fns, func(i, j int) bool { return core.FuncName(fns[i]) < core.FuncName(fns[j]) })
+	nlocks := 0
+	for _, fn := range fns {
+		f := c.Fn(fn)
+		for _, ci := range f.Calls() {
+			if _, isDefer := ci.(*ssa.Defer); isDefer {
+				continue
+			}
+			if _, acq, ok := isLockCall(ci); ok && acq {
+				nlocks++
+			}
+		}
+		for _, cs := range explicitSections(fn) {
+			var bad []string
+			for _, r := range cs.risky {
+				switch x := r.(type) {
+				case *ssa.Call:
+					for _, a := range x.Call.Args {
+						if nilable(a.Type()) && mentionsCallerData(fn, a) {
+							bad = append(bad, c.Pos(r)+" call "+shorten(exprOf(x)))
+							break
+						}
+					}
+				case *ssa.IndexAddr:
+					if mentionsCallerData(fn, x.Index) || mentionsCallerData(fn, x.X) {
+						bad = append(bad, c.Pos(r)+" index "+shorten(exprOf(x)))
+					}
+				case *ssa.Index:
+					if mentionsCallerData(fn, x.Index) || mentionsCallerData(fn, x.X) {
+						bad = append(bad, c.Pos(r)+" index "+shorten(exprOf(x)))
+					}
+				case *ssa.Slice:
+					if mentionsCallerData(fn, x) {
+						bad = append(bad, c.Pos(r)+" slice "+shorten(exprOf(x)))
+					}
+				case *ssa.TypeAssert:
+					if mentionsCallerData(fn, x.X) {
+						bad = append(bad, c.Pos(r)+" type assertion "+shorten(exprOf(x)))
+					}
+				case *ssa.Panic:
+					bad = append(bad, c.Pos(r)+" panic")
+				}
+			}
+			c.R.Ob(rule, "section:"+core.Short(core.FuncName(fn))+":"+cs.mutex, len(bad) == 0, c.Pos(cs.lock), core.FuncName(fn),
+				fmt.Sprintf("Lock of %s is released by an explicit Unlock (no defer) and the section handles caller/peer data that can panic: %v", cs.mutex, bad))
+		}
+	}
+	c.R.Ob(rule, "lock-sites-in-recovered-scope", nlocks >= 30 && len(fns) >= 150, "-", "", fmt.Sprintf("%d Lock sites in %d functions reachable from recvRoutine/sendRoutine", nlocks, len(fns)))
+}
+
+// ---- R1 recover boundary ----
+func c08R1(c *Ctx) {
+	rule := c.R.Rule("R1", "recover boundary: MConnection.recvRoutine and sendRoutine defer `_recover` in their entry block; `_recover` calls recover() and hands a non-nil value to stopForError, which calls onError (peer disconnect); every Reactor.Receive implementation is called only from newPeer's onReceive closure, which is called only from recvRoutine", 8)
+	rec := c.Anchor(rule, "gemmill/p2p.(*MConnection)._recover")
+	for _, rn := range []string{"recvRoutine", "sendRoutine"} {
+		f := c.Anchor(rule, "gemmill/p2p.(*MConnection)."+rn)
+		if f == nil {
+			continue
+		}
+		ok := false
+		pos := c.P.Pos(f.F.Pos())
+		if len(f.F.Blocks) > 0 {
+			for _, ins := range f.F.Blocks[0].Instrs {
+				if d, isD := ins.(*ssa.Defer); isD && cfgxCallee(d) == "gemmill/p2p.(*MConnection)._recover" && exprOf(d.Call.Args[0]) == "a0" {
+					ok = true
+					pos = c.Pos(d)
+				}
+				// nothing that can panic may precede the defer
+				if call, isC := ins.(*ssa.Call); isC && !ok {
+					if _, bi := call.Call.Value.(*ssa.Builtin); !bi {
+						break
+					}
+				}
+			}
+		}
+		c.R.Ob(rule, rn+":defers-_recover-first", ok, pos, fname(f), "the routine must `defer c._recover()` in its entry block before any other call: without it a panic in a reactor's Receive kills the process instead of disconnecting the peer")
+	}
+	if rec != nil {
+		hasRec := false
+		var stop ssa.Instruction
+		for _, ci := range rec.Calls() {
+			if bi, ok := ci.Common().Value.(*ssa.Builtin); ok && bi.Name() == "recover" {
+				hasRec = true
+			}
+			if cfgxCallee(ci) == "gemmill/p2p.(*MConnection).stopForError" {
+				stop = ci
+			}
+		}
+		c.R.Ob(rule, "_recover:calls-recover", hasRec, c.P.Pos(rec.F.Pos()), fname(rec), "`_recover` must call recover()")
+		okStop := stop != nil && rec.HasGuard(stop.(ssa.Instruction), eqs("(recover() != nil)"))
+		pos := c.P.Pos(rec.F.Pos())
+		if stop != nil {
+			pos = c.Pos(stop)
+		}
+		c.R.Ob(rule, "_recover:stopForError(recovered)", okStop, pos, fname(rec), "the recovered value must be handed to stopForError")
+	}
+	if sf := c.Anchor(rule, "gemmill/p2p.(*MConnection).stopForError"); sf != nil {
+		ok := false
+		var at ssa.Instruction
+		for _, ci := range sf.Calls() {
+			if strings.Contains(exprOf(ci.Common().Value), "a0.onError") {
+				ok = true
+				at = ci
+			}
+		}
+		pos := c.P.Pos(sf.F.Pos())
+		if at != nil {
+			pos = c.Pos(at)
+		}
+		c.R.Ob(rule, "stopForError:calls-onError", ok, pos, fname(sf), "stopForError must invoke the onError callback (Switch.StopPeerForError)")
+	}
+	// Receive implementations
+	nrecv := 0
+	for _, fn := range c.P.RepoFuncs() {
+		n := core.Short(core.FuncName(fn))
+		if !strings.HasSuffix(n, ").Receive") || fn.Signature.Recv() == nil || fn.Signature.Params().Len() != 3 {
+			continue
+		}
+		if !strings.HasSuffix(fn.Signature.Params().At(1).Type().String(), "p2p.Peer") {
+			continue
+		}
+		if fn.Synthetic != "" {
+			continue
+		}
+		nrecv++
+		var bad []string
+		for _, e := range c.P.Callers(fn) {
+			cn := core.Short(core.FuncName(e.Caller.Func))
+			if cn == "gemmill/p2p.newPeer$1" || e.Caller.Func.Synthetic != "" {
+				continue
+			}
+			bad = append(bad, cn)
+		}
+		c.R.Ob(rule, "Receive-called-only-from-onReceive:"+n, len(bad) == 0, c.P.Pos(fn.Pos()), core.FuncName(fn), fmt.Sprintf("Receive runs peer bytes; it must be entered only below recvRoutine's recover. Other callers: %v", bad))
+	}
+	c.R.Ob(rule, "Receive-implementations", nrecv >= 5, "-", "", fmt.Sprintf("%d Reactor.Receive implementations found", nrecv))
+	if on := c.P.F("gemmill/p2p.newPeer$1"); on != nil {
+		var bad []string
+		for _, e := range c.P.Callers(on) {
+			cn := core.Short(core.FuncName(e.Caller.Func))
+			if cn != "gemmill/p2p.(*MConnection).recvRoutine" {
+				bad = append(bad, cn)
+			}
+		}
+		c.R.Ob(rule, "onReceive-called-only-from-recvRoutine", len(bad) == 0 && len(c.P.Callers(on)) > 0, c.P.Pos(on.Pos()), core.FuncName(on), fmt.Sprintf("other callers: %v", bad))
+	} else {
+		c.R.Missing(rule, "gemmill/p2p.newPeer$1")
+	}
+}
+
+// ---- R2 decode limits ----
+
+// Decodes of the node's own records (database values, WAL, genesis): limit 0 (= unlimited) is allowed.
+var c08LocalDecoders = map[string]string{
+	"gemmill/blockchain.(*BlockStore).LoadBlock":       "block store record",
+	"gemmill/blockchain.(*BlockStore).LoadBlockPart":   "block store record",
+	"gemmill/blockchain.(*BlockStore).LoadBlockMeta":   "block store record",
+	"gemmill/blockchain.(*BlockStore).LoadBlockCommit": "block store record",
+	"gemmill/blockchain.(*BlockStore).LoadSeenCommit":  "block store record",
+	"gemmill/blockchain.(*BlockStore).DeleteBlock":     "block store record",
+	"gemmill/state.loadState":                          "state database record",
+	"gemmill/types.(*BaseApplication).LoadLastBlock":   "application's own last-block record",
+	"gemmill/types.(ValidatorsCodec).Decode":           "merkle-tree value codec over local data",
+}
+
+func c08R2(c *Ctx) {
+	rule := c.R.Rule("R2", "decode limits: every wire.ReadBinary/ReadBinaryPtr call passes a positive constant limit, or a value edge-dominated by a constant upper bound; limit 0 (unlimited) only in the listed decoders of the node's own records", 9)
+	sites := c.AllCalls(func(n string) bool {
+		return n == "gemmill/go-wire.ReadBinary" || n == "gemmill/go-wire.ReadBinaryPtr"
+	})
+	npos := 0
+	for _, s := range sites {
+		fnm := core.Short(fname(s.Fn))
+		if strings.HasPrefix(fnm, "gemmill/go-wire.") {
+			continue
+		}
+		args := s.Call.Common().Args
+		if len(args) < 3 {
+			c.R.Undecided(rule, "limit:"+fnm, c.Pos(s.Call), fname(s.Fn), "unexpected arity")
+			continue
+		}
+		lim := args[2]
+		key := "limit:" + fnm + ":" + shorten(exprOf(args[0]))
+		if k, ok := lim.(*ssa.Const); ok && k.Value != nil {
+			v, _ := constant.Int64Val(constant.ToInt(k.Value))
+			if v > 0 {
+				npos++
+				c.R.Ob(rule, key, true, c.Pos(s.Call), fname(s.Fn), fmt.Sprintf("limit %d", v))
+				continue
+			}
+			why, local := c08LocalDecoders[fnm]
+			c.R.Ob(rule, key, local, c.Pos(s.Call), fname(s.Fn), "limit 0 means unlimited: allowed only for local records ("+why+"); a network decode without a limit lets a peer make the node allocate arbitrarily")
+			continue
+		}
+		// variable limit: needs a constant upper bound on every path
+		le := exprOf(lim)
+		ok := s.Fn.HasGuard(s.Call.(ssa.Instruction), func(g string) bool {
+			return strings.HasPrefix(g, "!("+le+" > ") || strings.HasPrefix(g, "("+le+" <= ") || strings.HasPrefix(g, "("+le+" < ")
+		})
+		if ok {
+			npos++
+		}
+		c.R.Ob(rule, key, ok, c.Pos(s.Call), fname(s.Fn), "variable limit "+le+" needs a dominating upper bound; "+guardsText(s.Fn, s.Call.(ssa.Instruction)))
+	}
+	c.R.Ob(rule, "bounded-network-decodes", npos >= 9, "-", "", fmt.Sprintf("%d decode sites with a positive bound", npos))
+}
+
+// ---- R5 nil fields cross the queue only after a dereference in the recovered context ----
+
+// derefsParamAlways: does fn dereference its idx-th parameter on every path (a field access / load /
+// method call through it in a block dominating every return), without testing it for nil first?
+func (c *Ctx) derefsParamAlways(fn *ssa.Function, idx int, depth int) bool {
+	if fn == nil || fn.Blocks == nil || idx >= len(fn.Params) || depth > 2 {
+		return false
+	}
+	f := c.Fn(fn)
+	p := fn.Params[idx]
+	pe := exprOf(p)
+	rets := f.Returns()
+	domAll := func(ins ssa.Instruction) bool {
+		if len(rets) == 0 {
+			return false
+		}
+		for _, r := range rets {
+			if !f.Dominates(ins, r) {
+				return false
+			}
+		}
+		return true
+	}
+	for _, b := range fn.Blocks {
+		for _, ins := range b.Instrs {
+			if !f.Live(ins) {
+				continue
+			}
+			hit := false
+			switch x := ins.(type) {
+			case *ssa.FieldAddr:
+				hit = exprOf(x.X) == pe
+			case *ssa.UnOp:
+				hit = x.Op.String() == "*" && exprOf(x.X) == pe
+			case *ssa.Call:
+				if callee := x.Call.StaticCallee(); callee != nil {
+					for i, a := range x.Call.Args {
+						if exprOf(a) == pe && c.derefsParamAlways(callee, i, depth+1) {
+							hit = true
+						}
+					}
+				}
+			}
+			if hit && domAll(ins) {
+				return true
+			}
+		}
+	}
+	return false
+}
+
+var reTypeCase = regexp.MustCompile(`^(.*)\.\(\*([A-Za-z0-9_/.\-]+)\)#1$`)
+
+func c08R5(c *Ctx) {
+	rule := c.R.Rule("R5", "nil fields at the queue boundary: in ConsensusReactor.Receive every send on peerMsgQueue of a message type with pointer fields is dominated by a dereference of each such field (directly, or by a callee that dereferences that parameter on every path) — so a nil field panics under recvRoutine's recover (peer dropped) and never reaches the unrecovered consensus goroutine; BlockPool.AddBlock dereferences the block header before filing the block for poolRoutine; Block.Hash/ValidateBasic tolerate nil Header/Data/LastCommit; VerifyCommit and Commit.Height/Round tolerate nil commits", 6)
+	f := c.Anchor(rule, "gemmill/consensus/pbft.(*ConsensusReactor).Receive")
+	if f != nil {
+		nsend := 0
+		for _, b := range f.F.Blocks {
+			for _, ins := range b.Instrs {
+				snd, ok := ins.(*ssa.Send)
+				if !ok || !f.Live(ins) || !strings.HasSuffix(exprOf(snd.Chan), ".peerMsgQueue") {
+					continue
+				}
+				nsend++
+				// the type case this send belongs to
+				var base, tname string
+				for _, g := range f.AllGuardForms(ins) {
+					if m := reTypeCase.FindStringSubmatch(g); m != nil && !strings.HasPrefix(g, "!") {
+						base, tname = m[1], m[2]
+					}
+				}
+				if tname == "" {
+					c.R.Undecided(rule, "send:unknown-type-case", c.Pos(ins), fname(f), "send on peerMsgQueue outside a type case; "+guardsText(f, ins))
+					continue
+				}
+				obj := lookupType(c, tname)
+				st, _ := obj.(*types.Struct)
+				if st == nil {
+					c.R.Undecided(rule, "send:"+tname, c.Pos(ins), fname(f), "cannot resolve message type")
+					continue
+				}
+				short := tname[strings.LastIndex(tname, ".")+1:]
+				nptr := 0
+				for i := 0; i < st.NumFields(); i++ {
+					fld := st.Field(i)
+					if _, isPtr := fld.Type().Underlying().(*types.Pointer); !isPtr {
+						continue
+					}
+					nptr++
+					want := base + ".(*" + tname + ")#0." + fld.Name()
+					ok := false
+					for _, bb := range f.F.Blocks {
+						for _, i2 := range bb.Instrs {
+							if !f.Live(i2) || !f.Dominates(i2, ins) {
+								continue
+							}
+							switch x := i2.(type) {
+							case *ssa.FieldAddr:
+								if exprOf(x.X) == want {
+									ok = true
+								}
+							case *ssa.Call:
+								if callee := x.Call.StaticCallee(); callee != nil {
+									for k, a := range x.Call.Args {
+										if exprOf(a) == want && c.derefsParamAlways(callee, k, 0) {
+											ok = true
+										}
+									}
+								}
+							}
+						}
+					}
+					c.R.Ob(rule, "enqueue:"+short+"."+fld.Name()+":dereferenced-before-send", ok, c.Pos(ins), fname(f),
+						fmt.Sprintf("%s.%s is a pointer decoded from peer bytes (nil is encodable); it is sent to the consensus goroutine (no recover) without first being dereferenced under recvRoutine's recover", short, fld.Name()))
+				}
+				c.R.Ob(rule, "enqueue:"+short+":type-case-resolved", true, c.Pos(ins), fname(f), fmt.Sprintf("%d pointer field(s)", nptr))
+			}
+		}
+		c.R.Ob(rule, "peerMsgQueue-sends-in-Receive", nsend >= 3, c.P.Pos(f.F.Pos()), fname(f), fmt.Sprintf("%d sends", nsend))
+	}
+	if ab := c.Anchor(rule, "gemmill/blockchain.(*BlockPool).AddBlock"); ab != nil {
+		// block (a2) dereferenced (its embedded *Header loaded and a field read) before setBlock
+		var set ssa.Instruction
+		for _, ci := range ab.CallsTo(cfgx.Named("gemmill/blockchain.(*bpRequester).setBlock")) {
+			set = ci
+		}
+		ok := false
+		if set != nil {
+			for _, b := range ab.F.Blocks {
+				for _, ins := range b.Instrs {
+					if fa, isFA := ins.(*ssa.FieldAddr); isFA && ab.Live(ins) && exprOf(fa.X) == "a2.Header" && ab.Dominates(ins, set) {
+						ok = true
+					}
+				}
+			}
+		}
+		pos := c.P.Pos(ab.F.Pos())
+		if set != nil {
+			pos = c.Pos(set)
+		}
+		c.R.Ob(rule, "AddBlock:header-dereferenced-before-setBlock", ok, pos, fname(ab), "a block with a nil Header must panic here (recovered Receive) and not in poolRoutine (first.Height)")
+	}
+	if h := c.Anchor(rule, "gemmill/types.(*Block).Hash"); h != nil {
+		for _, fld := range []string{"Header", "Data", "LastCommit"} {
+			ok := false
+			for _, ci := range h.CallsTo(cfgx.Named("gemmill/types.(*Block).FillHeader", "gemmill/types.(*Header).Hash")) {
+				if h.HasGuard(ci.(ssa.Instruction), eqs("(a0."+fld+" != nil)")) {
+					ok = true
+				} else {
+					ok = false
+					break
+				}
+			}
+			c.R.Ob(rule, "Block.Hash:"+fld+"-nil-tolerated", ok, c.P.Pos(h.F.Pos()), fname(h), "Block.Hash is called by poolRoutine on peer-supplied blocks before any validation; it must return nil instead of dereferencing a nil "+fld)
+		}
+	}
+	nilCommitRuleInto(c, rule)
+}
+
+func lookupType(c *Ctx, qualified string) types.Type {
+	i := strings.LastIndex(qualified, ".")
+	if i < 0 {
+		return nil
+	}
+	pk := c.P.Pkg(qualified[:i])
+	if pk == nil || pk.Types == nil {
+		return nil
+	}
+	o := pk.Types.Scope().Lookup(qualified[i+1:])
+	if o == nil {
+		return nil
+	}
+	return o.Type().Underlying()
+}
+
+// ---- R6 representation invariant of peer-decoded BitArrays ----
+func c08R6(c *Ctx) {
+	rule := c.R.Rule("R6", "representation invariant: a *BitArray decoded from a peer (exported Bits/Elems, so len(Elems) need not match Bits) is stored into PeerState — which the unrecovered gossip goroutines index — only after BitArray.IsConsistent() held: every PeerState.Apply*Message call in Receive whose message type has a *BitArray field is edge-dominated by IsConsistent(msg.field); IsConsistent compares len(Elems) with (Bits+63)/64", 4)
+	f := c.Anchor(rule, "gemmill/consensus/pbft.(*ConsensusReactor).Receive")
+	n := 0
+	if f != nil {
+		for _, ci := range f.Calls() {
+			callee := ci.Common().StaticCallee()
+			if callee == nil || !strings.HasPrefix(callee.Name(), "Apply") || !strings.Contains(core.FuncName(callee), "(*PeerState)") || len(ci.Common().Args) < 2 {
+				continue
+			}
+			msg := ci.Common().Args[1]
+			pt, ok := msg.Type().Underlying().(*types.Pointer)
+			if !ok {
+				continue
+			}
+			st, ok := pt.Elem().Underlying().(*types.Struct)
+			if !ok {
+				continue
+			}
+			for i := 0; i < st.NumFields(); i++ {
+				fld := st.Field(i)
+				if !strings.HasSuffix(fld.Type().String(), "go-common.BitArray") {
+					continue
+				}
+				n++
+				want := "gemmill/modules/go-common.(*BitArray).IsConsistent(" + exprOf(msg) + "." + fld.Name() + ")"
+				ok := f.HasGuard(ci.(ssa.Instruction), eqs(want))
+				tn := pt.Elem().String()
+				tn = tn[strings.LastIndex(tn, ".")+1:]
+				c.R.Ob(rule, callee.Name()+":"+tn+"."+fld.Name()+"⊣IsConsistent", ok, c.Pos(ci), fname(f),
+					"peer-decoded bit array stored without the consistency check: Sub/Or/PickRandom/GetIndex on it index Elems by Bits in gossipVotesRoutine/gossipDataRoutine (no recover); "+guardsText(f, ci.(ssa.Instruction)))
+			}
+		}
+	}
+	c.R.Ob(rule, "bitarray-carrying-Apply-calls", n >= 3, "-", "", fmt.Sprintf("%d", n))
+	if ic := c.Anchor(rule, "gemmill/modules/go-common.(*BitArray).IsConsistent"); ic != nil {
+		cmp, low := false, false
+		for _, b := range ic.F.Blocks {
+			for _, ins := range b.Instrs {
+				if bo, ok := ins.(*ssa.BinOp); ok {
+					e := exprOf(bo)
+					if e == "(len(a0.Elems) == ((a0.Bits + 63) / 64))" || e == "(((a0.Bits + 63) / 64) == len(a0.Elems))" {
+						cmp = true
+					}
+					if e == "(a0.Bits > 0)" || e == "(a0.Bits >= 0)" || e == "(a0.Bits < 0)" || e == "(a0.Bits <= 0)" {
+						low = true
+					}
+				}
+			}
+		}
+		c.R.Ob(rule, "IsConsistent:len(Elems)==(Bits+63)/64", cmp, c.P.Pos(ic.F.Pos()), fname(ic), "the validator must compare the element count with the bit count")
+		c.R.Ob(rule, "IsConsistent:Bits-sign-tested", low, c.P.Pos(ic.F.Pos()), fname(ic), "the validator must reject negative Bits")
+	}
+}
+
+// ---- R7 bounded catch-up rounds and addRound's precondition ----
+func c08R7(c *Ctx) {
+	rule := c.R.Rule("R7", "bounded catch-up and addRound precondition: addRound panics on an existing round, so every call is made for a round known to be absent — in AddVote under `getVoteSet(round,type) == nil` with a valid type and `len(peerCatchupRounds[peer]) < 2` (a peer opens at most two extra rounds), in SetRound under the failed map lookup of that round, in Reset right after the map is re-made", 4)
+	hv := "gemmill/consensus/pbft.(*HeightVoteSet)"
+	sites := c.AllCalls(func(n string) bool { return n == hv+".addRound" })
+	for _, s := range sites {
+		fnm := core.Short(fname(s.Fn))
+		arg := callArg(s.Call, 1)
+		ins := s.Call.(ssa.Instruction)
+		switch fnm {
+		case hv + ".AddVote":
+			c.requireGuards(rule, "AddVote:addRound", s.Fn, ins, []WantGuard{
+				{"vote-type-valid", eqs("gemmill/types.IsVoteTypeValid(a1.Type)")},
+				{"round-absent", eqs("(" + hv + ".getVoteSet(a0," + arg + ",a1.Type) == nil)")},
+				{"peer-catchup<2", eqs("(len(a0.peerCatchupRounds[a2]) < 2)")},
+			})
+			// and the round is recorded against the peer
+			rec := false
+			for _, b := range s.Fn.F.Blocks {
+				for _, i2 := range b.Instrs {
+					if mu, ok := i2.(*ssa.MapUpdate); ok && s.Fn.Live(i2) && exprOf(mu.Map) == "a0.peerCatchupRounds" && exprOf(mu.Key) == "a2" && s.Fn.Dominates(ins, i2) {
+						rec = true
+					}
+				}
+			}
+			c.R.Ob(rule, "AddVote:catch-up-round-recorded", rec, c.Pos(ins), fname(s.Fn), "the opened round must be appended to peerCatchupRounds[peer], otherwise the bound of two never takes effect")
+		case hv + ".SetRound":
+			c.requireGuards(rule, "SetRound:addRound", s.Fn, ins, []WantGuard{
+				{"round-absent", eqs("!a0.roundVoteSets[" + arg + "]#1")},
+			})
+		case hv + ".Reset":
+			// dominated by a store of a fresh map
+			ok := false
+			for _, st := range s.Fn.FieldStores("gemmill/consensus/pbft.HeightVoteSet", "roundVoteSets") {
+				if _, isMk := st.Val.(*ssa.MakeMap); isMk && s.Fn.Dominates(st, ins) {
+					ok = true
+				}
+			}
+			c.R.Ob(rule, "Reset:addRound-after-fresh-map", ok, c.Pos(ins), fname(s.Fn), "addRound(0) must follow the re-creation of roundVoteSets")
+		default:
+			c.R.Ob(rule, "addRound-caller:"+fnm, false, c.Pos(ins), fname(s.Fn), "unreviewed caller of addRound (panics on an existing round)")
+		}
+	}
+	c.R.Ob(rule, "addRound-call-sites", len(sites) >= 3, "-", "", fmt.Sprintf("%d", len(sites)))
 }
